@@ -10,6 +10,11 @@ CHECKS = {
    technique="TLC model checking of an implementation-shaped TLA+ model against the CompInt contract + TLC trace validation of guard-page replays of the real codec",
    text="TLC exhausts CompIntImpl (the decoder loop transcribed with its cursor, count and limit; values as base-128 digit vectors) over all buffers of <= 4 bytes from 10 byte classes, every offset/limit and both destination types, checking NoReadPastLimit, ExactOrReject, CursorRule and termination against the CompInt contract. The same contract then judges the real code: every string of the enumerated family (all 1-byte strings, class-alphabet strings of length 2-3, lengths 4..11 with every class in the last three positions, each at several offset/limit pairs, flush against a PROT_NONE page) is decoded by the real compint_to_size/compint_to_int, and every value of the encode family is encoded and decoded back; the recorded ndjson trace is accepted only if TLC can replay it through Trace_CompInt.",
    note="Trusted: TLC, the CompInt contract text, the guard page (a read past the limit faults), the driver's conversion of 64-bit values to base-128 digits. Not decided: strings outside the enumerated family (length-3 strings outside the class alphabet in quick tier)."),
+ "C07": dict(
+   category="model_checking", design_ref="DESIGN.md section 6, C07",
+   technique="TLC-generated histories of the Pin contract replayed on the real library + TLC trace validation",
+   text="TLC enumerates every history of the Pin contract (up to three option calls in any order with every combination of matching/non-matching type, digest-string facts and length, followed by lead-only validation, lead read and header read) and checks AcceptedImpliesEqual on it; each history is concretised on files of all four overall checksum types (plus a file whose header body no longer matches its checksum) and executed through the public API, together with the sweep of all 256 byte values at four position classes of the digest string. The recorded trace, with the digest-string facts (exact length, hex-only, equal by value) computed independently, is accepted only if TLC can replay it through Trace_Pin: accept iff equal, digest-string rule, validate_lead consumes nothing.",
+   note="Trusted: TLC, Pin.tla, the reference writer/parser (verif/ref.py) that produces the files and their stored values. Not decided: option sequences longer than three calls before the lead is read."),
 }
 
 def entry(pid, c):
